@@ -327,6 +327,64 @@ def run(ctx):
                     ctx.sample(dict(machine=case["asl"], input=case["input"], history_types=[e["type"] for e in list(run.histories.values())[0]][:40]))
             finally:
                 S.close(run)
+    submitted_input_family(ctx)
+
+
+SUBMITTED = [[], 0, False, "", [1, {"a": None}], "text", 3.5, {"a": []}, {}, [[]], [0], True, -1]
+
+
+def submitted_input_family(ctx):
+    """The log starts with the input that was SUBMITTED: StartExecution through either front end with inputs of every JSON type (also the empty/zero/false
+    ones), against ExecutionStarted.input, the first StateEntered.input, DescribeExecution.input and, for a pass-through machine, the output."""
+    from lsfverif.sim.world import World
+    machines = {"pass": {"StartAt": "A", "States": {"A": {"Type": "Pass", "End": True}}},
+                "map": {"StartAt": "M", "States": {"M": {"Type": "Map", "ItemsPath": "$", "ItemProcessor": {"StartAt": "w", "States": {"w": {"Type": "Pass", "End": True}}}, "End": True}}}}
+    k = 0
+    for front in ("asyncio", "blocking"):
+        for mname, asl in machines.items():
+            k += 1
+            if not ctx.mine(k):
+                continue
+            with World(seed=ctx.seed) as w:
+                code, body = w.api("CreateStateMachine", {"name": mname, "definition": json.dumps(asl), "roleArn": "arn:aws:iam::0123456789:role/r"}, flavour=front)
+                sm = body["stateMachineArn"]
+                for j, value in enumerate(SUBMITTED):
+                    if mname == "map" and not isinstance(value, list):
+                        continue
+                    ctx.evaluation(); ctx.count("submitted_inputs_checked")
+                    text = json.dumps(value)
+                    code, body = w.api("StartExecution", {"stateMachineArn": sm, "name": "e%d" % j, "input": text}, flavour=front)
+                    wit = dict(front_end=front, machine=asl, submitted=text)
+                    if code != 200:
+                        ctx.violation("well-formed-input-refused", dict(wit, code=code, body=body), None)
+                        continue
+                    ex = body["executionArn"]
+                    w.run()
+                    c1, hist = w.api("GetExecutionHistory", {"executionArn": ex}, flavour=front)
+                    c2, desc = w.api("DescribeExecution", {"executionArn": ex}, flavour=front)
+                    events = (hist or {}).get("events") or [] if c1 == 200 else []
+                    ctx.nontrivial([front, mname, text])
+                    views = {}
+                    if events and events[0].get("type") == "ExecutionStarted":
+                        views["ExecutionStarted.input"] = events[0].get("executionStartedEventDetails", {}).get("input")
+                    first = next((e for e in events if e.get("type", "").endswith("StateEntered")), None)
+                    if first:
+                        views["first StateEntered.input"] = first["stateEnteredEventDetails"].get("input")
+                    if c2 == 200:
+                        views["DescribeExecution.input"] = desc.get("input")
+                        if desc.get("status") == "SUCCEEDED":
+                            views["DescribeExecution.output"] = desc.get("output")
+                    if len(views) < 3:
+                        ctx.violation("history-or-record-missing-for-a-started-execution", dict(wit, views=views, codes=[c1, c2]), None)
+                        continue
+                    for name, got in views.items():
+                        try:
+                            same = json.loads(got) == value and type(json.loads(got)) is type(value)
+                        except Exception:
+                            same = False
+                        if not same:
+                            ctx.violation("log-does-not-carry-the-submitted-input", dict(wit, view=name, logged=got), None)
+                            break
 
 
 def witnesses(ctx):
